@@ -161,6 +161,15 @@ def step (st : St) (line : String) : St × String :=
       let (w', res) := deliverERC20 B st.w m
       ({ st with w := w' }, resStr res)
     | _, _, _, _ => bad
+  | ["ics", r, _base, v, amt] =>
+    match str? v, amt.toInt? with
+    | some v, some amt =>
+      let pk : IcsPacket := { receiver := if r == "!" then none else some r, voucher := v, amount := amt }
+      let (w', res) := ics20Recv B st.w pk
+      ({ st with w := w', denoms := addU st.denoms v },
+        match res with
+        | .errAck => "errack" | .kept => "kept" | .converted => "ok" | .cleaned => "clean" | .panicked => "panic")
+    | _, _ => bad
   | ["block", a] =>
     ({ st with w := { st.w with bank := { st.w.bank with blocked := fun x => x == a || st.w.bank.blocked x } } }, "ok")
   | ["dump"] => (st, dump st)
